@@ -54,6 +54,9 @@ func c20Seeds(kind string) [][]byte {
 				out = append(out, b)
 			}
 		}
+		if kind == "tx" {
+			out = append(out, builtTxSeeds()...)
+		}
 	case "decstr":
 		for _, s := range []string{"1.5", "-0.000000000000000001", "0.0000000000000000001", "--1", "1e5", ".5", "1."} {
 			out = append(out, []byte(s))
@@ -72,6 +75,47 @@ func c20Seeds(kind string) [][]byte {
 		out = append(out, []byte{0}, []byte{0xc3, 0x37, 0x51, 0xfe})
 	}
 	out = append(out, []byte{}, []byte{0xff, 0xff, 0xff, 0xff, 0x0f})
+	return out
+}
+
+type nopOracle struct{}
+
+func (nopOracle) after(*chain, *callInfo) *Violation { return nil }
+
+// builtTxSeeds: one signed transaction of every bundled message type built on the fuzz genesis, plus
+// structural mutants of each (a field of the message / of the transaction dropped, emptied or re-typed).
+func builtTxSeeds() [][]byte {
+	ch, v := newChain(&hProg{Gen: fuzzGenesis()}, newCase("quick", true))
+	if v != nil || ch == nil || ch.run(nopOracle{}) != nil {
+		return nil
+	}
+	var out [][]byte
+	for _, tx := range []hTx{
+		{Kind: "send", From: 1, To: 2, Amt: 5},
+		{Kind: "stake", From: 1, Rel: "min"},
+		{Kind: "unstake", From: 0},
+		{Kind: "unjail", From: 0},
+		{Kind: "param", From: 0, Key: "pos/MaxValidators", Str: `"7"`},
+		{Kind: "dao", From: 0, To: 1, Amt: 1, Str: "dao_transfer"},
+		{Kind: "upgrade", From: 0, Amt: 100, Str: "1.0.0"},
+	} {
+		tx := tx
+		tx.SignWith, tx.KeyInSig, tx.Entropy = -1, true, 77
+		var bt *builtTx
+		if catch(func() { bt = ch.buildTx(&tx) }).panicked || bt == nil {
+			continue
+		}
+		out = append(out, bt.Bytes)
+		for _, level := range []string{"msg", "tx"} {
+			for _, op := range []string{"drop", "empty", "rewire"} {
+				for which := 0; which < 4; which++ {
+					if b, ok := structMutateTx(bt.Bytes, level, op, which); ok {
+						out = append(out, b)
+					}
+				}
+			}
+		}
+	}
 	return out
 }
 
